@@ -262,6 +262,8 @@ def step (st : State) (toks : List String) : State × String :=
     (s, a ++ " inputs-unchanged")
   -- a value returned by Marshal is a value: nothing done later can change it
   | ["trie.marshal-held-check"] => (st, "held-unchanged")
+  -- a report returned by Stat is a value: editing it changes nothing
+  | ["trie.stat-scribble"] => (st, "ok")
   | _ => stepCore st (unscribble toks)
 
 end Driver.Trie
